@@ -554,7 +554,8 @@ def run_scenario(xvc, model, sc, variant="code", jitter_shift=0, keep_going=Fals
             if st.get("outs"):
                 a = ["pipeline", "step", "output", "-s", st["name"]]
                 for o in st["outs"]:
-                    a += ["--output-file", o[0]]
+                    # file, metric or image: the kind of a declared output must not matter for the implicit edges
+                    a += [("--output-file", "--output-metric", "--output-image")[zlib.crc32(o[0].encode()) % 3], o[0]]
                 x = repo.xvc(*a, timeout=300)
                 if x.timed_out:
                     res.skipped = "timeout"
